@@ -469,8 +469,38 @@ def resave_history(ctx):
         shutil.rmtree(d, ignore_errors=True)
 
 
+def bare_names_in_cwd(ctx):
+    """a configuration saved under a bare file name in the working directory — a name that a shipped configuration also carries, and an
+    ordinary one — and loaded through the same bare name: the file just written is what is loaded"""
+    d = VERIF / ".work" / f"c19w_{os.getpid()}"
+    shutil.rmtree(d, ignore_errors=True)
+    d.mkdir(parents=True)
+    cwd = os.getcwd()
+    names = ["panoptica_evaluator_BRATS.yaml", "panoptica_evaluator_unmatched_instance.yaml", "my_evaluator.yaml", "./panoptica_evaluator_VERSE.yaml"]
+    inp = {"bare_names_in_cwd": names}
+    ctx.case(inp, True)
+    ctx.count("bare_names_in_working_directory")
+    try:
+        os.chdir(d)
+        for k, n in enumerate(names):
+            with quiet():
+                ev = impl.mk_evaluator(E.mk_cfg("UNMATCHED", ["IOU", "DSC"], matcher=E.naive("DSC", (1 + k, 7)), backend="scipy"))
+                ev.save_to_config(n)
+                back = impl.Panoptica_Evaluator.load_from_config(n)
+            if settings(back) != settings(ev):
+                ctx.violation(f"C19 violated: an evaluator saved as {n!r} in the working directory and loaded through the same path does not come back with its settings", inp,
+                              key={"kind": "bare-name"})
+                return
+    except Exception as e:
+        ctx.violation(f"C19 violated: saving / loading under a bare file name raised {type(e).__name__}: {str(e)[:160]}", inp, key={"kind": "bare-name"})
+    finally:
+        os.chdir(cwd)
+        shutil.rmtree(d, ignore_errors=True)
+
+
 def run(ctx):
     shipped(ctx)
+    bare_names_in_cwd(ctx)
     resave_history(ctx)
     int_named_groups(ctx)
     saved_by_name(ctx)
@@ -489,6 +519,8 @@ def replay(ctx, rec):
     i = rec["input"]
     if "cfg" in i:
         one_case(ctx, (i["cfg"], i["groups"], i["global_metrics"], i["flags"]), "replay")
+    elif "bare_names_in_cwd" in i:
+        bare_names_in_cwd(ctx)
     elif "resave_history" in i:
         resave_history(ctx)
     elif "int_named_groups" in i:
